@@ -76,6 +76,20 @@ def find_item(src, m, selector):
         if len(found) != 1:
             raise LostAnchor("selector `%s`: %d matches" % (selector, len(found)))
         return found[0], None
+    if len(parts) == 2 and parts[0].startswith("trait"):
+        tname = parts[0][5:].strip()
+        kind, name = parts[1].split(None, 1)
+        name = name.strip()
+        found = []
+        for it in rs.items(src, m, 0, len(src)):
+            if it.kind != "trait" or it.name != tname or it.cfg_test:
+                continue
+            for sub in rs.items(src, m, it.body_open + 1, it.end - 1):
+                if sub.kind == kind and sub.name == name:
+                    found.append((sub, it))
+        if len(found) != 1:
+            raise LostAnchor("selector `%s`: %d matches" % (selector, len(found)))
+        return found[0]
     if len(parts) == 2 and parts[0].startswith("impl"):
         head = parts[0][4:].strip()
         trait = None
@@ -123,13 +137,67 @@ def _norm(s):
     return re.sub(r"\s+", " ", s).strip()
 
 
+_T3 = re.compile(r"\.\s*map\s*\(\s*\|\s*([A-Za-z_][A-Za-z0-9_]*)\s*\|")
+
+
+def t3_string(t):
+    """Rewrite every statement-position `E.map(|x| S);` inside the text t (innermost first) into
+    `if let Some(x) = E { S; }`.  Returns (new text, number of rewrites)."""
+    n = 0
+    skip = set()
+    while True:
+        m = rs.mask(t)
+        cands = [mm for mm in _T3.finditer(m) if mm.start() not in skip]
+        if not cands:
+            return t, n
+        mm = cands[-1]
+        dot = mm.start()
+        par = m.index("(", dot)
+        try:
+            close = rs.match_close(m, par)
+        except rs.ScanError:
+            skip.add(dot)
+            continue
+        k = close + 1
+        while k < len(m) and m[k].isspace():
+            k += 1
+        if k >= len(m) or m[k] != ";":
+            skip.add(dot)
+            continue
+        s0 = dot
+        depth = 0
+        while s0 > 0:
+            c = m[s0 - 1]
+            if c in ")]}":
+                depth += 1
+                if c == "}" and depth == 1:
+                    break
+            elif c in "([{":
+                if depth == 0:
+                    break
+                depth -= 1
+            elif c == ";" and depth == 0:
+                break
+            s0 -= 1
+        while s0 < dot and m[s0].isspace():
+            s0 += 1
+        recv = t[s0:dot].rstrip()
+        if re.match(r"^(let|return)\b", recv):
+            skip.add(dot)
+            continue
+        inner = t[mm.end():close].strip()
+        rep = "if let Some(%s) = %s { %s; }" % (mm.group(1), _norm(recv), inner)
+        t = t[:s0] + rep + t[k + 1:]
+        n += 1
+
+
 def expand_item(repo, relfile, selector, body, tmpl_name, tmpl_line, opts):
     """body: list of (directive, arg, [lines], tmpl_line).  Returns ItemOut."""
     src, m = load(repo, relfile)
     it, cont = find_item(src, m, selector)
     out = ItemOut()
     out.file, out.selector, out.kind, out.name = relfile, selector, it.kind, it.name
-    out.qualname = (cont.impl_type + "::" + it.name) if cont is not None else it.name
+    out.qualname = ((cont.impl_type or cont.name) + "::" + it.name) if cont is not None else it.name
     out.repo_lines = (line_of(src, it.start), line_of(src, it.end - 1))
     edits = []
     seq = [0]
@@ -164,9 +232,13 @@ def expand_item(repo, relfile, selector, body, tmpl_name, tmpl_line, opts):
         if fp.body_open is None:
             raise LostAnchor("%s has no body" % selector)
         b0, b1 = fp.body_open + 1, fp.body_close
-        # ---- T3 statement-position Option::map
-        for mm in re.finditer(r"\.\s*map\s*\(\s*\|\s*([A-Za-z_][A-Za-z0-9_]*)\s*\|", m[b0:b1]):
+        # ---- T3 statement-position Option::map (nested occurrences are rewritten inside the replacement text)
+        closure_specs = [b for b in body if b[0] == "closure"]
+        covered_until = -1
+        for mm in _T3.finditer(m[b0:b1]):
             dot = b0 + mm.start()
+            if dot < covered_until:
+                continue
             par = m.index("(", dot)
             close = rs.match_close(m, par)
             k = close + 1
@@ -174,7 +246,6 @@ def expand_item(repo, relfile, selector, body, tmpl_name, tmpl_line, opts):
                 k += 1
             if k >= b1 or m[k] != ";":
                 continue  # result is used: not statement position
-            # statement start: previous ';', '{' or '}' at this nesting level
             s = dot
             depth = 0
             while s > b0:
@@ -182,7 +253,6 @@ def expand_item(repo, relfile, selector, body, tmpl_name, tmpl_line, opts):
                 if c in ")]}":
                     depth += 1
                     if c == "}" and depth == 1:
-                        # a closing brace at our level ends the previous statement
                         break
                 elif c in "([{":
                     if depth == 0:
@@ -193,16 +263,14 @@ def expand_item(repo, relfile, selector, body, tmpl_name, tmpl_line, opts):
                 s -= 1
             while s < dot and m[s].isspace():
                 s += 1
-            recv = src[s:dot].rstrip()
-            binder = mm.group(1)
-            inner = src[b0 + mm.end():close].strip()
-            if re.search(r"\.\s*map\s*\(\s*\|", m[b0 + mm.end():close]):
-                raise LostAnchor("T3: nested map in %s" % selector)
-            if re.match(r"^(let|return)\b", recv):
+            if re.match(r"^(let|return)\b", src[s:dot]):
                 continue
-            rep = "if let Some(%s) = %s { %s; }" % (binder, _norm(recv), inner)
+            rep, nrw = t3_string(src[s:k + 1])
+            for (_d, (chead, cnew), _l, _tl) in closure_specs:
+                rep = rep.replace(chead, cnew)
+            covered_until = k + 1
             add(s, k + 1, rep, ("repo", relfile, line_of(src, s)), "T3",
-                "`E.map(|%s| S);` -> if let" % binder)
+                "`E.map(|%s| S);` -> if let (%d rewrite%s incl. nested)" % (mm.group(1), nrw, "" if nrw == 1 else "s"))
         # ---- T8 `for (i, &x) in V.iter().enumerate() {` -> `for i in 0..V.len() { let x = V[i];`
         for mm in re.finditer(r"\bfor\s*\(\s*([A-Za-z_][A-Za-z0-9_]*)\s*,\s*&\s*([A-Za-z_][A-Za-z0-9_]*)\s*\)\s*in\s+([A-Za-z_][A-Za-z0-9_.]*?)\s*\.\s*iter\s*\(\s*\)\s*\.\s*enumerate\s*\(\s*\)\s*\{", m[b0:b1]):
             i_, x_, v_ = mm.group(1), mm.group(2), mm.group(3)
@@ -304,6 +372,18 @@ def expand_item(repo, relfile, selector, body, tmpl_name, tmpl_line, opts):
                     "ghost iterator of the for loop named `%s`" % itname)
         elif d == "noop-closure":
             pass
+        elif d == "closure":
+            # T2c: a closure literal gets typed binders and a requires/ensures clause (specification only).  Occurrences
+            # inside a T3 replacement are handled there; the remaining ones here.
+            chead, cnew = arg
+            pos0 = lo
+            while True:
+                k = src.find(chead, pos0, hi)
+                if k < 0:
+                    break
+                add(k, k + len(chead), cnew, ("repo", relfile, line_of(src, k)), "T2c",
+                    "closure `%s` gets typed binders and a contract" % chead)
+                pos0 = k + len(chead)
         elif d == "attr":
             # a verifier attribute in front of the item (specification only)
             add(it.head, it.head, arg + "\n", origin, None)
@@ -522,6 +602,12 @@ def parse_template(path):
                             continue
                         cur = (d2, (int(t.group(1)), t.group(2), t.group(3)), [], i + 1)
                         body.append(cur)
+                    elif d2 == "closure":
+                        t = re.match(r"`(.*)`\s*=>\s*`(.*)`\s*$", a2)
+                        if not t:
+                            raise LostAnchor("%s:%d: closure directive needs `head` => `typed head with spec`" % (path, i + 1))
+                        body.append((d2, (t.group(1), t.group(2)), [], i + 1))
+                        cur = None
                     elif d2 == "attr":
                         body.append((d2, a2, [], i + 1))
                         cur = None
